@@ -14,7 +14,9 @@
         table(v), plot(v), full(v), rst(v),     \* representations at verbosity v
         draw(v),                                \* ... drawn by the plotting back-end
         fingerprint, copy, pickle,              \* identity / duplication
-        reeval                                  \* obtaining the result again, in the same way
+        reeval,                                 \* obtaining the result again, in the same way
+        sibling                                 \* OTHER tests constructed over the same input objects are
+                                                \* evaluated and read (then `reeval`: cross-test repeatability)
    (the sets of operation names are constants: the harness binds each name to
    the whole family of public read-only calls it stands for)
    C13 says: every one of them is a stuttering step of `abs`
@@ -79,6 +81,7 @@ VerdictIsTruth == pc = "ready" => abs.verdict = good
 (* witnesses (negated reachability): TLC must find them violated *)
 W_ReprThenBool == ~(\E i, j \in DOMAIN hist : i < j /\ hist[i].op \in VerbOps /\ hist[j].op = "bool" /\ good)
 W_OtherOrigin == ~(origin # "evaluate" /\ \E i, j \in DOMAIN hist : i < j /\ hist[i].op = "oracles" /\ hist[j].op \in VerbOps)
+W_SiblingThenReeval == ~(\E i, j \in DOMAIN hist : i < j /\ hist[i].op = "sibling" /\ hist[j].op = "reeval")
 W_AllVerbs == ~(/\ Len(hist) = MaxLen
                 /\ \A i \in DOMAIN hist : hist[i].op \in VerbOps
                 /\ Cardinality({hist[j].verb : j \in DOMAIN hist}) = IF Cardinality(Verbs) < MaxLen THEN Cardinality(Verbs) ELSE MaxLen)
